@@ -32,7 +32,15 @@ type divProg struct {
 	// Contract, if set, is deployed as N at 0x1 first (transactions cannot declare composites)
 	Contract string
 	Rec   bool   // recursion program: the call-depth clause applies
+	// OnlyComp, if set, replaces the computation limits: finite, but far from binding (the memory limit must stop it)
+	OnlyComp uint64
+	// SizeOut: a terminating program whose result is the size in bytes of a value it holds at the end (computed by
+	// the program from what it appended, so that observing it allocates nothing); if it
+	// completes, that size must not exceed the memory limit (an execution is bounded by the metering limits)
+	SizeOut bool
 }
+
+const chunk1MiB = `var chunk = "abcdefgh"; var k = 0; while k < 17 { chunk = chunk.concat(chunk); k = k + 1 }; `
 
 const lrDecl = `access(all) resource LR { access(all) var kids: @[LR]; init() { self.kids <- [] } access(all) fun add(_ k: @LR) { self.kids.append(<- k) } }
 `
@@ -45,6 +53,11 @@ func divergence() []divProg {
 		{Name: "terminating-loop", Body: `var i = 0; while i < 5 { i = i + 1 }; out = i`},
 		{Name: "terminating-recursion", Rec: true, Decls: `access(all) fun fib(_ n: Int): Int { if n < 2 { return n }; return fib(n - 1) + fib(n - 2) }
 `, Body: `out = fib(7)`},
+		// values of 60 MiB built under a memory limit with a non-binding computation limit: the memory limit must stop them
+		{Name: "stringbuilder-append-60MiB", OnlyComp: 2_000_000_000, SizeOut: true, Body: `var piece = "abcdefgh"; var k = 0; while k < 7 { piece = piece.concat(piece); k = k + 1 }; let b = StringBuilder(); var i = 0; while i < 61440 { b.append(piece); i = i + 1 }; out = i * 1024`},
+		{Name: "stringbuilder-append-1MiB-pieces", OnlyComp: 2_000_000_000, SizeOut: true, Body: chunk1MiB + `let b = StringBuilder(); var i = 0; while i < 60 { b.append(chunk); i = i + 1 }; out = i * 1048576`},
+		{Name: "string-join-60MiB", OnlyComp: 2_000_000_000, SizeOut: true, Body: chunk1MiB + `var parts: [String] = []; var i = 0; while i < 60 { parts.append(chunk); i = i + 1 }; let j = String.join(parts, separator: ""); out = i * 1048576`},
+		{Name: "string-concat-64MiB", OnlyComp: 2_000_000_000, SizeOut: true, Body: chunk1MiB + `var i = 0; while i < 6 { chunk = chunk.concat(chunk); i = i + 1 }; out = 67108864`},
 		{Name: "while-true", Body: `while true {}`},
 		{Name: "while-true-continue", Body: `while true { continue }`},
 		{Name: "while-true-if-continue", Body: `var i = 0; while true { if i == 0 { continue }; i = i + 1 }`},
@@ -119,6 +132,7 @@ type c30Result struct {
 	Comp     uint64 `json:"comp_used"`
 	Mem      uint64 `json:"mem_used"`
 	CPUms    int64  `json:"cpu_ms"`
+	Value    string `json:"value,omitempty"`
 	Err      string `json:"err,omitempty"`
 }
 
@@ -174,6 +188,9 @@ func run30(c c30Case) c30Result {
 	switch {
 	case res.Class == "ok":
 		r.Cat = "ok"
+		if res.Value != nil {
+			r.Value = res.Value.String()
+		}
 	case res.Class != "user":
 		r.Cat = "bad"
 	case strings.Contains(res.Kind, "CallStackLimitExceededError"):
@@ -201,7 +218,17 @@ func cpuNow() time.Duration {
 }
 
 // judge30 returns the violation class ("" = allowed) of a finished case.
-func judge30(r c30Result) string {
+func judge30(c c30Case, r c30Result) string {
+	if r.Cat == "ok" {
+		for _, p := range divergence() {
+			if p.Name == c.Prog && p.SizeOut {
+				var n uint64
+				if _, err := fmt.Sscan(r.Value, &n); err == nil && n > c.Mem {
+					return "value-exceeds-memory-limit"
+				}
+			}
+		}
+	}
 	switch {
 	case r.Cat == "bad":
 		if r.LimitHit {
@@ -406,11 +433,18 @@ func runC30(env *mc.Env) {
 	var cases []c30Case
 	for _, p := range progs {
 		for _, f := range fillers {
-			for _, comp := range comps {
+			pcomps := comps
+			if p.OnlyComp != 0 {
+				pcomps = []uint64{p.OnlyComp}
+			}
+			for _, comp := range pcomps {
 				for _, mem := range mems {
 					for _, d := range depths {
 						if d == 50 && !p.Rec && f.Name != "none" {
 							continue // the depth limit only matters for the recursion programs; keep one filler for the others
+						}
+						if p.OnlyComp != 0 && (d != depths[0] || f.Name != "none") {
+							continue
 						}
 						if !env.Thorough() && d == 0 && !(p.Rec && f.Name == "none" && comp == comps[len(comps)-1] && mem == mems[len(mems)-1]) {
 							continue
@@ -512,7 +546,7 @@ func runC30(env *mc.Env) {
 					env.R.Violation(sig30(c, term.Crash), c, c.String()+": worker died: "+term.Detail)
 				case term.Done:
 					env.R.Add("slow_cases_terminating_within_confirmation_horizon", 1)
-					if bad := judge30(term.Res); bad != "" {
+					if bad := judge30(c, term.Res); bad != "" {
 						env.R.Violation(sig30(c, bad), c, fmt.Sprintf("%s: class=%s kind=%s limitHit=%v: %s", c, term.Res.Class, term.Res.Kind, term.Res.LimitHit, term.Res.Err))
 					} else {
 						byKey[c.String()] = term.Res
@@ -525,7 +559,7 @@ func runC30(env *mc.Env) {
 				if o.Res.CPUms > maxCPU {
 					maxCPU = o.Res.CPUms
 				}
-				if bad := judge30(o.Res); bad != "" {
+				if bad := judge30(c, o.Res); bad != "" {
 					env.R.Violation(sig30(c, bad), c, fmt.Sprintf("%s: class=%s kind=%s limitHit=%v: %s", c, o.Res.Class, o.Res.Kind, o.Res.LimitHit, o.Res.Err))
 					continue
 				}
@@ -609,7 +643,7 @@ func replayC30(env *mc.Env, raw json.RawMessage) (bool, string) {
 	case o.Horizon:
 		return true, c.String() + ": horizon"
 	case o.Done:
-		if bad := judge30(o.Res); bad != "" {
+		if bad := judge30(c, o.Res); bad != "" {
 			return true, fmt.Sprintf("%s: %s (%s %s)", c, bad, o.Res.Class, o.Res.Kind)
 		}
 		cv := c
